@@ -1070,7 +1070,7 @@ func main() {
 			*nbcast *= 3
 			*nchain *= 4
 		}
-		// S8 regression (fixed by db81664): a reset is persisted
+		// S8 regression (fixed by 3a92c2a): a reset is persisted
 		emit(runBuf(R, 10, []BufOp{{K: "record", Arg: 1, OK: true}, {K: "reset", Arg: 1000000, OK: true}, {K: "record", Arg: 2, OK: true},
 			{K: "next"}, {K: "restart", Arg: 10, OK: true}, {K: "next"}}))
 		for k := 0; k < *nsync; k++ {
